@@ -4,7 +4,7 @@ import Ruint.Lemmas.Basic
 /-! `shift_left_small` / `shift_right_small`: the limb loops compute `val · 2^amount` resp.
     `val / 2^amount` with the bits shifted out, for every `amount < 64` (after the `amount == 0` fix).
     `W = T·U` with `T = 2^amount`, `U = 2^(64−amount)`; `(x·T) % W = (x % U)·T` makes `|||` a sum. -/
-namespace Ruint.Shift
+namespace Ruint.ShiftK
 open Ruint
 
 theorem W_split (amount : ℕ) (h : amount ≤ 64) : W = 2 ^ amount * 2 ^ (64 - amount) := by
@@ -111,4 +111,4 @@ theorem shrSmall_spec (limbs : List ℕ) (amount : ℕ) (h : amount < 64) (hx : 
   · simp only [h0, if_false]
     exact shrLoop_spec amount (by omega) limbs hx
 
-end Ruint.Shift
+end Ruint.ShiftK
